@@ -8,6 +8,7 @@
 //! resulting *algebra*; `exec` rebuilds the `spargebra::Query` from the request and runs it through
 //! `SparqlWrapper(&dataset).query(..)` on `LightDataset` and `FastDataset`.
 mod codec;
+mod measure;
 mod qgen;
 
 use sophia_api::prelude::*;
@@ -48,13 +49,14 @@ fn rows_c(rows: &[String]) -> String {
     format!("{}/{}", rs.len(), body)
 }
 
-enum Outcome {
-    Rows(Vec<String>, Vec<String>),
+pub(crate) enum Outcome {
+    /// variables, canonical rows, per row the set of bound columns (bit i = column i bound)
+    Rows(Vec<String>, Vec<String>, Vec<u64>),
     Ask(bool),
     Err(String, String),
 }
 
-fn run_on<D: Dataset>(ds: &D, q: &spargebra::Query) -> Outcome
+pub(crate) fn run_on<D: Dataset>(ds: &D, q: &spargebra::Query) -> Outcome
 where
     D::Error: std::error::Error,
 {
@@ -69,6 +71,7 @@ where
         Ok(SparqlResult::Bindings(bs)) => {
             let vars: Vec<String> = bs.variables().iter().map(|v| v.to_string()).collect();
             let mut rows = vec![];
+            let mut masks = vec![];
             for r in bs {
                 match r {
                     Err(_) => return Outcome::Err("rowerr".into(), "rowerr".into()),
@@ -80,11 +83,12 @@ where
                                 Some(t) => term_c(&view(t.inner())),
                             })
                             .collect();
+                        masks.push(cells.iter().enumerate().fold(0u64, |m, (i, c)| if c.is_some() && i < 64 { m | (1 << i) } else { m }));
                         rows.push(format!("[{}]", cs.join(",")));
                     }
                 }
             }
-            Outcome::Rows(vars, rows)
+            Outcome::Rows(vars, rows, masks)
         }
     }
 }
@@ -121,12 +125,12 @@ where
             }
         }
         Outcome::Ask(b) => format!("errclass=none ask={}", if b { 1 } else { 0 }),
-        Outcome::Rows(vars, rows) => {
+        Outcome::Rows(vars, rows, _) => {
             // outermost Slice: the rows depend on the (unspecified) order — containment + size only
             if let spargebra::Query::Select { dataset, pattern: GraphPattern::Slice { inner, .. }, base_iri } = q {
                 let q2 = spargebra::Query::Select { dataset: dataset.clone(), pattern: (**inner).clone(), base_iri: base_iri.clone() };
                 match run_on(ds, &q2) {
-                    Outcome::Rows(_, full) => format!(
+                    Outcome::Rows(_, full, _) => format!(
                         "errclass=none vars={} n={} sub={} full={}",
                         vars_c(&vars),
                         rows.len(),
